@@ -760,16 +760,20 @@ def impl_events(discovery, evs):
     sc = ScriptedClient(discovery)
     calls = {}       # id -> [holder, requestId or None]
     obs = []
+    cells = []
 
     def cell():
         v = sc.client._api_versions
         if v is None:
-            return [0]
-        if not isinstance(v, list) and v == 0:
-            return [1]
-        _, p = fired(sc.client.get_api_version(KafkaCodec.PRODUCE_KEY))
-        _, f = fired(sc.client.get_api_version(KafkaCodec.FETCH_KEY))
-        return [2, p, f]
+            c = [0]
+        elif not isinstance(v, list) and v == 0:
+            c = [1]
+        else:
+            _, p = fired(sc.client.get_api_version(KafkaCodec.PRODUCE_KEY))
+            _, f = fired(sc.client.get_api_version(KafkaCodec.FETCH_KEY))
+            c = [2, p, f]
+        cells.append(tuple(c))
+        return c
 
     def result(h):
         return [] if not h else [h[0][1]] if h[0][0] == 1 else [-2]
@@ -796,7 +800,7 @@ def impl_events(discovery, evs):
                     calls[i][1] = None
             else:
                 obs += cell()
-    return obs
+    return obs, cells
 
 
 def case_events(discovery, evs):
@@ -847,6 +851,112 @@ def e2e_producer(rnd, discovery, outs, codec_id, ngroups):
 def is_subsequence(xs, ys):
     it = iter(ys)
     return all(any(x == y for y in it) for x in xs)
+
+
+# ------------------------------------------------------------------ end to end: every request type through KafkaClient
+NICE = "abcdefghijklmnopqrstuvwxyzABCXYZ0123456789._-"
+
+
+def nice(rnd, lo=1, hi=20):
+    return "".join(rnd.choice(NICE) for _ in range(rnd.randint(lo, hi)))
+
+
+def e2e_client(rnd, g):
+    """Drive the REAL KafkaClient's public request methods (and the coordinator request function the group
+    Coordinator uses); capture (correlation id registered with the broker client, bytes) at the lowest request
+    functions.  Returns [(api, args for Api.expect, frame)]."""
+    from twisted.internet import defer
+    from afkak.common import (BrokerMetadata, FetchRequest, OffsetCommitRequest, OffsetFetchRequest, OffsetRequest,
+                              TopicAndPartition, _HeartbeatRequest, _JoinGroupRequest, _JoinGroupRequestProtocol,
+                              _LeaveGroupRequest, _SyncGroupRequest, _SyncGroupRequestMember)
+    from afkak.kafkacodec import KafkaCodec
+    cid = rnd.choice(["afkak-client", nice(rnd), "klient-\u00e9"])
+    sc = ScriptedClient(False, client_id=cid)
+    cidb = cid.encode("utf-8")
+    del sc.client._send_broker_aware_request
+    frames = []
+
+    def make_request(broker, correlationId, request, expectResponse=True, min_timeout=None):
+        frames.append((correlationId, bytes(request)))
+        return defer.Deferred()
+    sc.client._make_request_to_broker = make_request
+    sc.client._get_brokerclient = lambda node_id: object()
+    topics = [nice(rnd) for _ in range(rnd.randint(1, 3))]
+    group = nice(rnd)
+    sc.client._group_to_coordinator[group] = BrokerMetadata(1, "h", 9092)
+
+    def leaders(payloads):
+        for p in payloads:
+            sc.client.topics_to_brokers[TopicAndPartition(p.topic, p.partition)] = BrokerMetadata(1, "h", 9092)
+    out = []
+
+    def last(api, a):
+        rid, fr = frames[-1]
+        a.update({"cid": cidb, "corr": rid})
+        out.append((api, a, fr))
+    n = rnd.randint(1, 4)
+    part = lambda: rnd.choice([0, 1, 2, 7])            # noqa: E731
+    # fetch (discovery disabled: v0)
+    ps = [FetchRequest(rnd.choice(topics), part(), g.i64(oob=0), g.i32(oob=0)) for _ in range(n)]
+    leaders(ps)
+    w, mb = rnd.choice([0, 100, 500]), g.i32(oob=0)
+    watch(sc.client.send_fetch_request(ps, max_wait_time=w, min_bytes=mb))
+    last("fetch", {"payloads": ps, "wait": w, "minb": mb, "ver": 0})
+    ps = [OffsetRequest(rnd.choice(topics), part(), rnd.choice([-1, -2, g.i64(oob=0)]), g.i32(oob=0)) for _ in range(n)]
+    leaders(ps)
+    watch(sc.client.send_offset_request(ps))
+    last("list_offsets", {"payloads": ps})
+    ps = [OffsetFetchRequest(rnd.choice(topics), part()) for _ in range(n)]
+    watch(sc.client.send_offset_fetch_request(group, ps))
+    last("offset_fetch", {"group": group, "payloads": ps})
+    ps = [OffsetCommitRequest(rnd.choice(topics), part(), g.i64(oob=0), rnd.choice([-1, g.i64(oob=0)]), rnd.choice([None, b"", b"meta"]))
+          for _ in range(n)]
+    gen_id, consumer = rnd.choice([-1, 0, 5]), rnd.choice(["", nice(rnd)])
+    watch(sc.client.send_offset_commit_request(group, ps, group_generation_id=gen_id, consumer_id=consumer))
+    last("offset_commit", {"group": group, "gen": gen_id, "consumer": consumer, "payloads": ps})
+    # group membership requests, as afkak._group.Coordinator issues them
+    member = rnd.choice(["", nice(rnd), "m-\u00e9\u20ac"])
+    protos = [(nice(rnd), CL.rbytes(rnd, rnd.randint(0, 12))) for _ in range(rnd.randint(1, 2))]
+    session = rnd.choice([6000, 30000])
+    watch(sc.client._send_request_to_coordinator(
+        group, _JoinGroupRequest(group, session, member, "consumer", [_JoinGroupRequestProtocol(a, b) for a, b in protos]),
+        encoder_fn=KafkaCodec.encode_join_group_request, decode_fn=KafkaCodec.decode_join_group_response, min_timeout=35.0))
+    last("join_group", {"group": group, "session": session, "member": member, "ptype": "consumer", "protos": protos})
+    asg = [(nice(rnd), CL.rbytes(rnd, rnd.randint(0, 12))) for _ in range(rnd.randint(0, 3))]
+    watch(sc.client._send_request_to_coordinator(
+        group=group, payload=_SyncGroupRequest(group, 3, member, [_SyncGroupRequestMember(a, b) for a, b in asg]),
+        encoder_fn=KafkaCodec.encode_sync_group_request, decode_fn=KafkaCodec.decode_sync_group_response))
+    last("sync_group", {"group": group, "gen": 3, "member": member, "asg": asg})
+    watch(sc.client._send_request_to_coordinator(
+        group=group, payload=_HeartbeatRequest(group, 3, member),
+        encoder_fn=KafkaCodec.encode_heartbeat_request, decode_fn=KafkaCodec.decode_heartbeat_response))
+    last("heartbeat", {"group": group, "gen": 3, "member": member})
+    watch(sc.client._send_request_to_coordinator(
+        group=group, payload=_LeaveGroupRequest(group, member),
+        encoder_fn=KafkaCodec.encode_leave_group_request, decode_fn=KafkaCodec.decode_leave_group_response))
+    last("leave_group", {"group": group, "member": member})
+    # broker-agnostic requests: metadata and coordinator lookup
+    mt = rnd.sample(topics, rnd.randint(0, len(topics)))
+    watch(sc.client.load_metadata_for_topics(*mt))
+    rid, fr, _d = sc.unaware[-1]
+    out.append(("metadata", {"cid": cidb, "corr": rid, "topics": list(mt)}, fr))
+    g2 = nice(rnd)
+    watch(sc.client.load_coordinator_for_group(g2))
+    rid, fr, _d = sc.unaware[-1]
+    out.append(("find_coordinator", {"cid": cidb, "corr": rid, "group": g2}, fr))
+    return out
+
+
+def all_event_histories(depth):
+    """every sequence of at most `depth` events over: two calls, and for each of them the four outcomes"""
+    outcomes = [(0, 0, RACE_TABLE), (0, 35, []), (1,), (2,)]
+    alphabet = [("call", 0, 0), ("call", 1, 1)] + [("reply", i, o) for i in (0, 1) for o in outcomes]
+    seqs = [[]]
+    out = []
+    for _ in range(depth):
+        seqs = [sq + [e] for sq in seqs for e in alphabet]
+        out += seqs
+    return out
 
 
 # ------------------------------------------------------------------ finding F-C04-4: overlapping lookups
@@ -1065,13 +1175,27 @@ def run(ck):
 
     # ---- 3. overlapping lookups (op 61)
     cases, impl, meta = [], [], []
-    for _ in range(150 * scale):
-        discovery = rnd.random() < 0.9
-        evs = gen_events(rnd)
+    histories = [(rnd.random() < 0.9, gen_events(rnd)) for _ in range(150 * scale)]
+    # exhaustive small scope (validation of the tie, not the proof): EVERY history of up to 3 (thorough: 4) events
+    # over two overlapping calls and the outcomes table / error answer / unavailable / other failure
+    exhaustive = all_event_histories(3 if ck.tier == "quick" else 4)
+    histories += [(True, evs) for evs in exhaustive]
+    ck.hist("event_histories", len(histories) - len(exhaustive))
+    ck.hist("event_histories_exhaustive", len(exhaustive))
+    for discovery, evs in histories:
+        obs, cells = impl_events(discovery, evs)
         cases.append(case_events(discovery, evs))
-        impl.append(impl_events(discovery, evs))
+        impl.append(obs)
         meta.append((discovery, evs))
-        ck.hist("event_histories")
+        # monitor restating C04_resolved_state_final on the implementation's own trace
+        resolved = None
+        for c in cells:
+            if resolved is not None and c != resolved:
+                ck.violation({"kind": "version state changed after it was resolved", "theorem": "C04_resolved_state_final",
+                              "discovery": discovery, "events": evs, "cells": cells, "replay_op": "none"})
+                break
+            if c[0] != 0:
+                resolved = c
     diffs, mo = ck.correspond(MODEL, MODULE, cases, impl, "overlapping get_api_version calls: KafkaClient._api_versions and results vs Model.ClientVersion.step",
                               nontrivial=lambda c, o: len(o) >= 3, describe=describe)
     if diffs and not ck.violations:
@@ -1129,6 +1253,28 @@ def run(ck):
             ck.violation({"kind": "end to end: keys/values on the wire differ from the messages sent", "sent": repr(sent),
                           "wire": repr(got), "frames": [list(f) for f in frames], "replay_op": "none"})
     diffs, mo = ck.correspond(MODEL, MODULE, sp_cases, sp_impl, "grammar parsers Python vs Coq on frames captured end to end (Producer -> KafkaClient)",
+                              nontrivial=lambda c, o: o[0] == 1, describe=describe)
+    if diffs:
+        i = diffs[0]
+        ck.violation({"kind": "the two independent grammar parsers disagree on a captured frame (verification machinery)",
+                      "case": sp_cases[i][:300], "python": sp_impl[i][:300], "coq": mo[i][:300]}, no_input=True)
+
+    # ---- 4b. end to end: every other request type through the real KafkaClient
+    by_name = {api.name: api for api in APIS}
+    sp_cases, sp_impl = [], []
+    for _ in range(25 * scale):
+        for name, a, fr in e2e_client(rnd, g):
+            ck.hist("e2e_client_" + name)
+            req, flat, case = spec_parse(fr)
+            sp_cases.append(case)
+            sp_impl.append(flat)
+            want = by_name[name].expect(a)
+            if req is None or req != want:
+                ck.violation({"kind": "end to end: request sent by KafkaClient does not parse to the arguments of the call "
+                                      "(client id, the correlation id registered with the broker client, fields)",
+                              "api": name, "theorem": THEOREM_OF[name], "bytes": list(fr), "parsed": repr(req)[:1200],
+                              "expected": repr(want)[:1200], "replay_op": "frame"})
+    diffs, mo = ck.correspond(MODEL, MODULE, sp_cases, sp_impl, "grammar parsers Python vs Coq on frames captured end to end (KafkaClient request methods)",
                               nontrivial=lambda c, o: o[0] == 1, describe=describe)
     if diffs:
         i = diffs[0]
